@@ -261,6 +261,18 @@ fn one_run_inner(ctx: &RunCtx) -> RunOut {
                                 Err(e) => {
                                     rec_r.borrow_mut().outcome.push(("poll_data".into(), serr(&e)));
                                     rec_r.borrow_mut().adapter_read = Some(got);
+                                    // a second read of the same stream (h3's recv_trailers after a failed recv_data) must be
+                                    // answered - the condition again, or end of stream - never with data, never by a panic
+                                    let again = poll_fn(|cx| std::task::Poll::Ready(rx.poll_data(cx))).await;
+                                    rec_r.borrow_mut().outcome.push((
+                                        "poll_data.again".into(),
+                                        match again {
+                                            std::task::Poll::Pending => "pending".into(),
+                                            std::task::Poll::Ready(Ok(Some(b))) => format!("DATA {} bytes", b.len()),
+                                            std::task::Poll::Ready(Ok(None)) => "end".into(),
+                                            std::task::Poll::Ready(Err(e2)) => serr(&e2),
+                                        },
+                                    ));
                                     return rx;
                                 }
                             }
@@ -568,7 +580,7 @@ fn one_run_inner(ctx: &RunCtx) -> RunOut {
                     match fault_kind {
                         0 => r.outcome.iter().any(|(w, _)| w == "write_after_error") || r.done.iter().any(|d| d == "writer"),
                         1 => r.outcome.iter().any(|(w, _)| w == "poll_data"),
-                        _ => r.outcome.iter().any(|(w, _)| w == "poll_data") && (r.outcome.iter().any(|(w, _)| w != "poll_data") || r.done.iter().any(|d| d == "writer")),
+                        _ => r.outcome.iter().any(|(w, _)| w == "poll_data") && (r.outcome.iter().any(|(w, _)| w != "poll_data" && w != "poll_data.again") || r.done.iter().any(|d| d == "writer")),
                     }
                 }
             },
@@ -600,6 +612,9 @@ fn one_run_inner(ctx: &RunCtx) -> RunOut {
     let rid: Vec<u64> = r.ids.iter().filter(|(w, _)| w.starts_with("recv_id")).map(|(_, i)| *i).collect();
     if sid.windows(2).any(|w| w[0] != w[1]) || rid.windows(2).any(|w| w[0] != w[1]) || (sid.first().is_some() && rid.first().is_some() && sid[0] != rid[0]) || sid.first().map(|i| *i != 1).unwrap_or(false) {
         return fail("C17.identifier_changed", format!("identifiers reported {:?} (first server-initiated bidirectional stream is 1)", r.ids), what);
+    }
+    if let Some((_, o)) = r.outcome.iter().find(|(w, o)| w == "poll_data.again" && o.starts_with("DATA")) {
+        return fail("C17.read_after_error_returned_data", format!("after a read of the stream had failed, the next read returned {o}; outcome {:?}", r.outcome), what);
     }
     if let Some(o) = r.overlap.first() {
         if o == "accepted" {
@@ -742,7 +757,7 @@ impl Check for C17 {
     fn meta(&self) -> Meta {
         Meta {
             level: "exploration",
-            rule: "per run two real Quinn endpoints complete a real TLS 1.3 handshake on the simulated network; transport parameters drawn (stream receive window 1 B .. 1 MiB, connection window, send window); network faults drawn per run (drop 0-20 %, duplicate 0-10 %, reorder 0-10 %, delay up to 20 ms) or none; scenarios: (a) 1-4 DATA frames with payloads 0 .. 256 KiB at window multiples +-1 written through h3_quinn send_data/poll_ready/poll_finish while the raw peer writes 0..100 KB back, identifier queries before, while a read is pending, with a write in flight, after the first chunk and at the end, a second send_data while the first is unfinished, in one run in three followed by a blob written through the unframed path (SendStreamUnframed::poll_send with a fresh view of the unsent rest at every poll, as h3's AsyncWrite does); (b) peer stop / reset / close with arbitrary codes at a drawn byte offset, or a partition until the idle timeout; (c) a full h3 request/response over two adapters; (d) HTTP Datagrams through the Quinn datagram adapter, payloads contiguous or in two chunks; every run non-trivial; distinct = distinct schedule signatures (task/packet event sequences)",
+            rule: "per run two real Quinn endpoints complete a real TLS 1.3 handshake on the simulated network; transport parameters drawn (stream receive window 1 B .. 1 MiB, connection window, send window); network faults drawn per run (drop 0-20 %, duplicate 0-10 %, reorder 0-10 %, delay up to 20 ms) or none; scenarios: (a) 1-4 DATA frames with payloads 0 .. 256 KiB at window multiples +-1 written through h3_quinn send_data/poll_ready/poll_finish while the raw peer writes 0..100 KB back, identifier queries before, while a read is pending, with a write in flight, after the first chunk and at the end, a second send_data while the first is unfinished, in one run in three followed by a blob written through the unframed path (SendStreamUnframed::poll_send with a fresh view of the unsent rest at every poll, as h3's AsyncWrite does); (b) peer stop / reset / close with arbitrary codes at a drawn byte offset, or a partition until the idle timeout, with a second read of the stream after the failed one; (c) a full h3 request/response over two adapters; (d) HTTP Datagrams through the Quinn datagram adapter, payloads contiguous or in two chunks; every run non-trivial; distinct = distinct schedule signatures (task/packet event sequences)",
             real: &["quinn 0.11, quinn-proto, rustls (ring), h3-quinn (lib.rs, datagram.rs), h3 stream::WriteBuf and frame encoding, in scenario (c) all of h3"],
             stub: &["UDP sockets, timers, task spawner and clock (engine E3: virtual time, in-memory network, choice-driven)", "the raw Quinn peer's behaviour", "a fixed Ed25519 certificate checked into /verif/sim/certs"],
             assumptions: &["ring's system RNG influences packet contents only, never sizes or timing (runs are re-executed and compared by trace hash; a divergence is a harness error)", "DATA frame headers are compared against the minimal reference encoding"],
